@@ -3,6 +3,7 @@ package checks
 import (
 	"fmt"
 	"strings"
+	"unicode/utf8"
 
 	"verif/core"
 	"verif/model"
@@ -61,6 +62,24 @@ func init() {
 				h := h
 				secs = append(secs, seqSections(fmt.Sprintf("head-%x-", h), LexemeAtoms, 2, func(c *core.Ctx, s string) { run(c, h+s) })...)
 			}
+			// long runs of plain text (a lexer may copy them in one go): every run length around powers of two,
+			// on the first and on later lines, starting at column 0 or behind something, followed by every kind of token
+			runLens := []int{1, 15, 16, 17, 31, 32, 33, 63, 64, 65, 127, 128, 129, 255, 256, 257, 1000}
+			before := []string{"", "<div>\n", "a\nb\n", "{{ 1 }}\n", "{{ 1 }}", "<p>", "\r\n", "@if(x)\n", "{{-- c --}}\n"}
+			after := []string{"", "{{ name }}", "@if(x)y@end", "{{-- c --}}", "\n", "\\{{ x }}", "\r\n{{ y }}", "@", "{", "}} {{ z }}", "é{{ w }}"}
+			secs = append(secs, core.Section{Name: "long-text-runs", Exhaustive: true, N: len(runLens) * len(before),
+				Run: func(c *core.Ctx, i int) {
+					n, pre := runLens[i%len(runLens)], before[i/len(runLens)]
+					for _, fill := range []string{"x", "ab cd ", "é", "<td class=\"c\">"} {
+						body := strings.Repeat(fill, n/len(fill)+1)[:n]
+						for !utf8.ValidString(body) {
+							body = body[:len(body)-1]
+						}
+						for _, post := range after {
+							run(c, pre+body+post)
+						}
+					}
+				}})
 			all := allAtoms()
 			secs = append(secs, core.Section{Name: "random", N: nrand, Run: func(c *core.Ctx, i int) {
 				run(c, randomAtomString(c.Rng, all, maxb))
